@@ -899,7 +899,8 @@ class Gen:
         for (a, b) in zip(segs, segs[1:]):
             if a[1] != b[0]:
                 raise Undecided(f"segments {a[2]} and {b[2]} of {rel}::{name} do not tile the body (gap or overlap)")
-        src, (b0, ob, e) = self._locate_fn(rel, name)
+        sopts = dict(t.split("=", 1) for t in toks[2:] if "=" in t)
+        src, (b0, ob, e) = self._locate_fn(rel, name, rx(sopts["in"]) if "in" in sopts else None)
         body = src.text[ob + 1:e - 1]
         pre = " ".join(body[:segs[0][0]].split())
         post = " ".join(body[segs[-1][1]:].split())
